@@ -41,6 +41,9 @@ pub fn from_string_inner(ast: &DeriveInput) -> syn::Result<TokenStream> {
     let mut phf_exact_match_arms = Vec::new();
     // `phf_map!` rejects duplicate keys, so every key is only inserted once (the first one wins).
     let mut phf_keys = ::std::collections::HashSet::new();
+    // The plain `match` reaches the guard arm of a case-insensitive spelling before any later arm,
+    // so a key that such an earlier spelling matches must not be answered by the map.
+    let mut phf_ci_spellings: Vec<String> = Vec::new();
     let mut standard_match_arms = Vec::new();
     for variant in variants {
         let ident = &variant.ident;
@@ -121,7 +124,8 @@ pub fn from_string_inner(ast: &DeriveInput) -> syn::Result<TokenStream> {
         // If we don't have any custom variants, add the default serialized name.
         for serialization in variant_properties.get_serializations(type_properties.case_style) {
             if type_properties.use_phf {
-                if phf_keys.insert(serialization.value()) {
+                let shadowed = |key: &str| phf_ci_spellings.iter().any(|ci| ci.eq_ignore_ascii_case(key));
+                if !shadowed(&serialization.value()) && phf_keys.insert(serialization.value()) {
                     phf_exact_match_arms.push(quote! { #serialization => #name::#ident #params, });
                 }
 
@@ -133,12 +137,13 @@ pub fn from_string_inner(ast: &DeriveInput) -> syn::Result<TokenStream> {
                         syn::LitStr::new(&ser_string.to_ascii_lowercase(), serialization.span());
                     let upper =
                         syn::LitStr::new(&ser_string.to_ascii_uppercase(), serialization.span());
-                    if phf_keys.insert(lower.value()) {
+                    if !shadowed(&lower.value()) && phf_keys.insert(lower.value()) {
                         phf_exact_match_arms.push(quote! { #lower => #name::#ident #params, });
                     }
-                    if phf_keys.insert(upper.value()) {
+                    if !shadowed(&upper.value()) && phf_keys.insert(upper.value()) {
                         phf_exact_match_arms.push(quote! { #upper => #name::#ident #params, });
                     }
+                    phf_ci_spellings.push(ser_string);
                     standard_match_arms.push(quote! { s if s.eq_ignore_ascii_case(#serialization) => #name::#ident #params, });
                 }
             } else {
